@@ -1733,12 +1733,13 @@ impl<E: Effect> Environment<E> {
         }
         // Resource-creating operations (those that return None from resource_id()) don't need ownership checks
 
-        // Execute the effect via the effect backend
-        let effect_backend = self.effect_backend.as_mut().ok_or_else(|| {
-            EnvironmentError::Executor(quiver_core::error::Error::InvalidArgument(
-                "No effect backend available".to_string(),
-            ))
-        })?;
+        // Execute the effect via the effect backend. A host without one (the I/O builtins are
+        // attached but no backend could be set up) fails the requesting process; an Err from here
+        // would leave `step` with the rest of the batch unhandled and that process waiting for a
+        // completion for ever.
+        let Some(effect_backend) = self.effect_backend.as_mut() else {
+            return self.report_effect_error(process_id, "No effect backend available".to_string());
+        };
 
         // Execute effect (may return immediate result or submit for async processing)
         // The backend tracks pending operations by process_id
